@@ -74,17 +74,28 @@ def tokens(text, keep_comments=False):
 
 def normalise(toks, drop=("::",)):
     """documented canonicalisations applied to a token list: compound keywords split, '::' dropped,
-    blank statements dropped"""
+    blank statements dropped, commas inside FORMAT statements dropped"""
     out = []
     k = 0
     n = len(toks)
     first = None
+    nwords = 0
+    fmt = False
     while k < n:
         kind, s = toks[k]
         if kind == "n":
             first = None
-        elif first is None and kind == "w":
-            first = s.lower() if api.is_concrete(s) else ""
+            nwords = 0
+            fmt = False
+        elif kind == "w":
+            nwords += 1
+            if first is None:
+                first = s.lower() if api.is_concrete(s) else ""
+            if nwords <= 2 and api.is_concrete(s) and s.lower() == "format" and (nwords == 1 or first.isdigit()):
+                fmt = True       # [label] FORMAT ( ... )
+        if fmt and kind == "p" and s == ",":
+            k += 1               # commas in FORMAT lists are a documented canonicalisation
+            continue
         if (kind == "p" and s == "(" and k + 1 < n and toks[k + 1][0] == "p" and toks[k + 1][1] == ")"
                 and first in ("subroutine", "call", "entry")):
             k += 2   # empty dummy-argument / actual-argument parentheses
